@@ -7,7 +7,6 @@ import (
 	"encoding/json"
 	"errors"
 	"fmt"
-	"io"
 	"net"
 	"os"
 	"path/filepath"
@@ -1010,15 +1009,18 @@ func (a *Agent) PortFwdRead(SocketID int) ([]byte, error) {
 	PortFwd = a.PortFwdGet(SocketID)
 
 	if PortFwd != nil {
-		if PortFwd.Conn != nil {
-			/* read from our socket to the data buffer or return error */
-			_, err := io.Copy(&data, PortFwd.Conn)
-			if err != nil {
-				return nil, err
+		if Conn := PortFwd.Conn; Conn != nil {
+			/* read what the target has sent so far (not the whole stream up to its end:
+			 * the agent's client is waiting for it) or return the error, io.EOF included */
+			var buffer = make([]byte, 0x10000)
+
+			n, err := Conn.Read(buffer)
+			if n > 0 {
+				data.Write(buffer[:n])
+				return data.Bytes(), nil
 			}
 
-			/* return the read data */
-			return data.Bytes(), nil
+			return nil, err
 		} else {
 			return nil, errors.New("rportfwd connection is empty")
 		}
